@@ -113,7 +113,7 @@ theorem rows_range (xs : List α) : Rows xs (List.range xs.length) xs := by
   unfold Rows
   apply List.ext_getElem?
   intro k
-  simp only [List.getElem?_map, List.getElem?_range]
+  simp only [List.getElem?_map]
   by_cases hk : k < xs.length
   · simp [List.getElem?_range hk, List.getElem?_eq_getElem hk]
   · have : xs.length ≤ k := Nat.le_of_not_lt hk
